@@ -117,7 +117,7 @@ Qed.
    parser, optimiser, program construction with the search shortcuts, matcher | specification
    parser, flag reader, set semantics): on the smallest sub-grammar - non-empty patterns of
    ordinary characters - in both dialects and under every flag string without q and x *)
-Theorem C01_ordinary_pattern_end_to_end :
+Theorem C01_ordinary_pattern_end_to_end_partial :
   forall xpath pat fls input,
     forallb ordinary pat = true -> pat <> [] -> (N.of_nat (length pat) <= umax)%N ->
     existsb (N.eqb 59) fls = false ->
@@ -136,7 +136,7 @@ Proof. exact ordinary_pattern_end_to_end. Qed.
    to any depth (grammar trees of Proofs/GroupGrammar.v, printed by show_a); inputs shorter than
    usize::MAX: the model's Regex::new (hook constructor: no search shortcuts) + is_match
    = the specification's parser, flag reader and set semantics; every stage a theorem *)
-Theorem C01_group_grammar_end_to_end :
+Theorem C01_group_grammar_end_to_end_partial :
   forall xpath a fls input,
     ok_a xpath a = true -> existsb (N.eqb 59) fls = false -> (N.of_nat (length input) < umax)%N ->
     match spec_flags xpath fls with
@@ -157,5 +157,5 @@ Print Assumptions C01_fragment_is_match_partial.
 Print Assumptions C01_fragment_language_partial.
 Print Assumptions C01_fragment_ends_partial.
 Print Assumptions C01_fragment_quantified_language_partial.
-Print Assumptions C01_ordinary_pattern_end_to_end.
-Print Assumptions C01_group_grammar_end_to_end.
+Print Assumptions C01_ordinary_pattern_end_to_end_partial.
+Print Assumptions C01_group_grammar_end_to_end_partial.
